@@ -196,7 +196,7 @@ fn run_input(ctx: &mut Ctx, player: &mut Player, input: &Value) {
 
 fn generate(ctx: &mut Ctx) -> Vec<Value> {
     let mut cases = Vec::new();
-    let n = ctx.budget(26, 600);
+    let n = ctx.budget(32, 600);
     let mut i = 0;
     let mut attempts = 0;
     while i < n && attempts < 20 * n {
@@ -213,6 +213,21 @@ fn generate(ctx: &mut Ctx) -> Vec<Value> {
         if used.len() < 2 { continue }
         let used: Vec<String> = used.into_iter().collect();
         let broken = rng.pick(&used).clone();
+        let mut base_tree = base_tree;
+        // Every CA of the broken module whose issuer lives elsewhere gets
+        // resources that the issuer also uses itself: the issuer publishes a
+        // ROA inside the child's block, so that "unsafe VRPs" exist whenever
+        // the child's point is rejected.
+        let border: Vec<Node> = base_tree.nodes.iter().filter(|n| {
+            n.module == broken && n.parent.as_ref().map(|p| base_tree.node(p).module != broken).unwrap_or(false)
+        }).cloned().collect();
+        for (k, node) in border.iter().enumerate() {
+            let parent = base_tree.node(node.parent.as_ref().unwrap()).clone();
+            let j = *node.path.last().unwrap();
+            let prefix = v4_roa(parent.ta, &parent.path, 5 + j, Some(j));
+            let obj = roa(&format!("ov{j}.roa"), 40 + j as u64, 65_100 + (i * 8 + k) as u32, &prefix, None);
+            base_tree.world.ca_mut(&parent.name).unwrap().versions[0].objects.push(obj);
+        }
         let parents = parents_of(&base_tree.world);
         let aff = affected(&base_tree.world, &parents, &broken);
         if aff.len() == base_tree.world.cas.len() && !rng.chance(1, 8) { continue }
@@ -223,7 +238,6 @@ fn generate(ctx: &mut Ctx) -> Vec<Value> {
         let two_runs = rng.chance(1, 2);
         let order = Order::Seed(rng.next());
         let mut tree = base_tree.clone();
-        let mut base_tree = base_tree;
         let (v, now) = if two_runs {
             add_version(&mut base_tree, 600);
             (add_version(&mut tree, 600), T0 + 900)
